@@ -62,9 +62,9 @@ async def _run_hist(history, via):
     return outs
 
 
-async def _run(unsup, history, via):
+async def _run(unsup, history, via, sources=None):
     from pyplumio.devices.ecomax import EcoMAX
-    from pyplumio.frames.messages import SensorDataMessage
+    from pyplumio.frames.messages import RegulatorDataMessage, SensorDataMessage
     from pyplumio.structures.network_info import NetworkInfo
     q = asyncio.Queue()
     dev = EcoMAX(q, network=NetworkInfo())
@@ -79,7 +79,7 @@ async def _run(unsup, history, via):
             await asyncio.gather(*pending, return_exceptions=True)
         await asyncio.sleep(0)
 
-    for ann in history:
+    for step, ann in enumerate(history):
         if via == "dispatch":
             d = {}
             for c, v in ann:
@@ -91,7 +91,11 @@ async def _run(unsup, history, via):
                 continue
         else:
             table = bytes([len(ann)]) + b"".join(bytes([c, v & 0xFF, v >> 8]) for c, v in ann)
-            dev.handle_frame(SensorDataMessage(message=bytearray(table + sensor_rest())))
+            if sources is not None and sources[step] == "R":
+                # the same table inside a regulator-data message (version word 1.0; no schema known: no data part)
+                dev.handle_frame(RegulatorDataMessage(message=bytearray(bytes([0, 0, 0, 1]) + table)))
+            else:
+                dev.handle_frame(SensorDataMessage(message=bytearray(table + sensor_rest())))
         await settle()
         o = []
         while not q.empty():
@@ -105,7 +109,8 @@ class C15(Prop):
     prop_file = "Props/C15.v"
     rule = ("histories of 1-6 announcements over the known request kinds plus unknown codes with repeated / raised / lowered versions and "
             "duplicate codes inside one table, on devices with every kind of unsupported set (none, one, several, all); delivered as the "
-            "frame_versions event and, for half of the cases, inside real sensor-data frames through handle_frame.  Non-trivial = at least one "
+            "frame_versions event, inside real sensor-data frames through handle_frame, and as sensor-data and regulator-data messages alternating "
+            "(a third of those replaying an earlier sensor-data message verbatim after a regulator-data announcement).  Non-trivial = at least one "
             "refresh expected; distinct by (unsupported, history).")
     assumptions = ["announcements naming a known response/message kind make the handler raise TypeError (observation O1): outside the "
                    "property's quantifier, generated separately and compared with the model only"]
@@ -144,14 +149,23 @@ class C15(Prop):
                 k = rng.randrange(0, len(hist) + 1)
                 h2 = [[0, a] for a in hist[:k]] + [[1, unsup]] + [[0, a] for a in hist[k:]]
                 cases.append({"kind": "hist:" + ("dispatch" if i % 2 else "sensor-frame"), "hist": h2})
-            else:
+            elif i % 3 == 1:
                 cases.append({"kind": "dispatch" if i % 2 else "sensor-frame", "unsup": unsup, "history": hist})
+            else:
+                # both sources of announcements, alternating; a third of these replay an earlier sensor-data message verbatim
+                # after a regulator-data message has announced something else
+                if rng.random() < 0.35 and len(hist) >= 2:
+                    hist = [hist[0], hist[1], hist[0]] + hist[2:]
+                    src = ["S", "R", "S"] + [rng.choice("SR") for _ in hist[3:]]
+                else:
+                    src = [rng.choice("SR") for _ in hist]
+                cases.append({"kind": "mixed-sources", "unsup": unsup, "history": hist, "sources": src})
         return cases
 
     def run_impl(self, c):
         if "hist" in c:
             return vloop.run(_run_hist, c["hist"], "dispatch" if c["kind"].endswith("dispatch") else "frame")
-        return vloop.run(_run, c["unsup"], c["history"], "dispatch" if c["kind"] == "dispatch" else "frame")
+        return vloop.run(_run, c["unsup"], c["history"], "dispatch" if c["kind"] == "dispatch" else "frame", c.get("sources"))
 
     @staticmethod
     def _h(c):
